@@ -557,7 +557,7 @@ fn replay_known(k: &KnownFinding) -> bool {
 pub fn run(cfg: &Config) -> i32 {
     let started = Instant::now();
     let budget = Duration::from_secs_f64(cfg.pick(60.0, 600.0) * cfg.scale);
-    let stats = parallel(cfg, "main", cfg.scaled(cfg.pick(3000, 2_000_000)), budget, |idx, r, st| case(cfg, idx, r, st));
+    let stats = parallel(cfg, "main", cfg.scaled(cfg.pick(30_000, 2_000_000)), budget, |idx, r, st| case(cfg, idx, r, st));
     let mut known_replayed = Vec::new();
     for k in load_known(cfg).into_iter().filter(|k| k.property == "C02" && k.status == "open") {
         let still = replay_known(&k);
@@ -575,7 +575,7 @@ pub fn run(cfg: &Config) -> i32 {
                 "oracle kit as in C01; stable models are enumerated for tiny programs only".into(),
                 "interpretations are restricted to the vocabulary of the task (public predicates, private predicates of either side, placeholders)".into(),
             ],
-            floor: cfg.pick(5_000, 50_000),
+            floor: cfg.pick(50_000, 300_000),
             floor_counter: "definite_comparisons".into(),
             known_replayed,
             extra: J::obj(),
